@@ -145,6 +145,7 @@ def run(check, ctx):
     c_ec.curve_conformance(check, repo)
     c_ec.ec_tables(check, ctx)
     c_ec.newpoint_tables(check, ctx)
+    c_ec.cmp_tables(check, ctx, rule="K-pw")
     # the Edwards curves: field layer of 25519 and the group-law cases (torsion points included) for Ed25519 / Ed448
     from . import c_ed
     c_ed.ed_tables(check, ctx)
